@@ -245,7 +245,15 @@ func (s *store) listFull() (result listFullResult) {
 func (s *store) authenticate(username, password string) (result authenticateResult) {
 	result.ok, result.isAdmin, result.upgradeable, result.lastChanged, result.err = s.dir.Authenticate(username, password)
 	if result.ok && result.upgradeable && s.upgradeChan != nil {
-		s.upgradeChan <- updateRequest{username: username, password: password}
+		// This runs inside the dispatcher: it must never block here. With local upgrades
+		// the upgrade channel is the dispatcher's own update queue, sending to it while it is
+		// full would dead-lock the agent. Upgrades are opportunistic: drop it, the next
+		// successful login will try again.
+		select {
+		case s.upgradeChan <- updateRequest{username: username, password: password}:
+		default:
+			wdl.Printf("upgrade: ignoring upgrade request for '%s', queue is full", username)
+		}
 	}
 	return
 }
